@@ -516,6 +516,20 @@ def _shift_of(expr, defs, var):
         return None
 
 
+def rule_image_flush(report, prog, rule='C01-R6'):
+    """Type 1 / Type 2 memory image: `__init__`, a series of `__setitem__` stores (bytes, slices across page / block / sector
+    boundaries) and the flush of synchronize() folded in one environment against a modelled tag (rules/imgmodel.py): afterwards the
+    tag holds exactly the cache, and every command could be carried out (WRITE-E only below the limit Type1Tag.write_byte accepts, for
+    static, Topaz-512 and other dynamic header ROM values)."""
+    from . import imgmodel
+    v = imgmodel.verdicts(prog)
+    for kind in ('tt1', 'tt2'):
+        f = prog.func('nfc.tag.%s.Type%sTagMemoryReader._write_to_tag' % (kind, kind[2]))
+        problems, runs = v[kind]
+        report.check(not problems, rule, key(f.qname, 'folded image: after stores and the flush the tag holds the cache, every command is one the tag can carry out'),
+                     f.loc(), '; '.join(problems[:2]), detail='%d store series folded over %s' % (runs, [c[1:] for c in imgmodel.CASES if c[0] == kind]))
+
+
 def rule_tt2_memory_units(report, prog, rule='C01-R6'):
     """Type 2 Tag memory image: both the loader and the flush address the tag from the byte index of the image: sector =
     index >> 10 (1 KiB sectors), page = index >> 2 (4 octet pages), index advances by exactly what one command moves (16
@@ -526,6 +540,10 @@ def rule_tt2_memory_units(report, prog, rule='C01-R6'):
         loops = [l for l in walk_no_nested(f.node) if isinstance(l, ast.For) and isinstance(l.iter, ast.Call) and norm(l.iter.func) == 'range'
                  and len(l.iter.args) == 3 and isinstance(l.target, ast.Name)]
         if len(loops) != 1:
+            from . import imgmodel
+            if fn == '_write_to_tag' and not any('cannot fold' in p_ for p_ in imgmodel.verdicts(prog)['tt2'][0]):
+                n += 4      # the flush has another form: its addressing is decided by the folded image (rule_image_flush)
+                continue
             report.deficits.append('%s: %s: single counting loop over the byte index not found' % (rule, f.qname))
             continue
         var = loops[0].target.id
@@ -620,6 +638,7 @@ def run(report, prog, tier):
     rule_t3_identity(report, prog)
     rule_tt4_layout(report, prog)
     rule_tt2_memory_units(report, prog)
+    rule_image_flush(report, prog)
     from .c03 import rule_control_tlv_dispatch
     rule_control_tlv_dispatch(report, prog, rule='C01-R3')
     rule_gate(report, prog)
